@@ -21,7 +21,8 @@ LEVEL = "model_checking"
 REQUIRED_CLASSES = ["equiv-ok", "dispatch-ok", "fault-run-ok"]
 RULE = ("datasets: plain {flat gzip, flat no-gzip, deep gzip behind the "
         "documented rewrite rule}; sharded with bit triples {0,1,2}^3 + "
-        "(3,0,1) x raw/gzip x grids 2^3 and (3,2,1), as .shard files and "
+        "(3,0,1) x raw/gzip (plus 6 datasets whose index and data encodings "
+        "differ) x grids 2^3 and (3,2,1), as .shard files and "
         "split into legacy .index/.data; URL spellings {plain, trailing "
         "slash, precomputed:// prefix, https}. A state = (history prefix, "
         "answers given so far); a transition = one answered request. "
@@ -77,6 +78,11 @@ def sharded_datasets(tier):
                     out.append({"kind": "sharded", "triple": list(t),
                                 "enc": enc, "size": list(size),
                                 "legacy": legacy})
+    # index and data encoded differently
+    for t in ((1, 1, 0), (0, 0, 0), (2, 1, 1)):
+        for ienc, enc in (("raw", "gzip"), ("gzip", "raw")):
+            out.append({"kind": "sharded", "triple": list(t), "enc": enc,
+                        "ienc": ienc, "size": [2, 2, 2], "legacy": False})
     return out
 
 
@@ -103,7 +109,7 @@ def build(ds, root):
         return [(KEY, cc, bytes(se.payload(i)) * 3 if i != 4 else None)
                 for i, cc, cid in chunks]
     cfg = {"size": ds["size"], "chunk": 1, "triple": ds["triple"],
-           "index_enc": ds["enc"], "data_enc": ds["enc"],
+           "index_enc": ds.get("ienc", ds["enc"]), "data_enc": ds["enc"],
            "strategy": "in memory"}
     with open(os.path.join(d, "info"), "w") as f:
         json.dump(se.make_info(cfg, two_scales=True), f)
